@@ -43,8 +43,9 @@ static const char *rule(const std::string &prop) {
                "and a segment with >=3 points; distinct by canonical tape hash";
     return "cases: as C03 restricted to integer keys, plus PGMIndex builds whose upper levels (EpsilonRecursive) are recorded. oracle: the library's "
            "segmentation of every chunk must coincide with a greedy segmentation driven by an exact rational feasibility test "
-           "(max_{j<i}(l_i-u_j)/(x_i-x_j) <= min_{j<i}(u_i-l_j)/(x_i-x_j), 128-bit cross-multiplication) => feasible, maximal, minimal; starts > 2eps ranks "
-           "apart; count <= floor(n/(2eps+1))+c+1. non-trivial: >=3 segments, >=2eps+2 points, no session skipped by the O(k^2) budget; distinct by tape hash";
+           "(max_{j<i}(l_i-u_j)/(x_i-x_j) <= min_{j<i}(u_i-l_j)/(x_i-x_j), 128-bit cross-multiplication; evaluated in O(log k) per point over the two convex "
+           "hulls, and cross-checked by the literal O(k^2) evaluation while a per-case budget lasts) => feasible, maximal, minimal, for segments of any length; "
+           "starts > 2eps ranks apart; count <= floor(n/(2eps+1))+c+1. non-trivial: >=3 segments, >=2eps+2 points; distinct by tape hash";
 }
 
 const Engine ENGINE = {"e_seg", 512, &run, &rule};
